@@ -1,6 +1,7 @@
 import TongoProofs.Lemmas.BocWriter
 import TongoProofs.Lemmas.BocOrderFinal
 import TongoProofs.Lemmas.BocOrderCanon
+import TongoProofs.Lemmas.BocCellTable
 /-! Property C01 — bag-of-cells serialisation round-trips and is canonical.
 
 `parseBoc` is the line-by-line model of the (repaired) Go reader, `emitBoc` the reference writer with every choice a
@@ -129,6 +130,41 @@ theorem serialize_canonical {K : Type} [BEq K] [Hashable K] [LawfulBEq K] (t1 t2
   refine ⟨Writer.serializeOrdered o1.table o1.roots idx crc cache o1.cacheBits, ?_, ?_⟩
   · simp only [Order.serializeBocModel, e1']
   · simp only [Order.serializeBocModel, e2', ht, hr, hc]
+
+/-- Every cell TREE within the limits of the format (`CellOK`: ≤ 1023 bits, ≤ 4 references, 3-bit masks, complete
+pruned branches, exotic cells starting with their type byte; depth ≤ 1024) has a table presentation that is a valid
+layout and whose root unfolds to the tree. -/
+theorem cell_has_presentation (c : Cell) (hok : Order.CellOK c) (hd : Order.cellDepth c ≤ maxDepth) :
+    ValidLayout (Order.cellTable c) [0] ∧
+    Table.unfold (Order.cellTable c) ((Order.cellTable c).size + 1) 0 = some c :=
+  ⟨Order.cellTable_valid c hok hd, Order.cellTable_unfold c⟩
+
+/-- **Round trip on cells.** For every cell tree within the limits of the format, every key identifying the cells and
+all 2³ option sets: the writer model succeeds on (the presentation of) the tree, and the reader applied to its bytes
+returns a table whose root unfolds to the tree — same bits, type, references in the same order, hence the same
+representation hash. By `serialize_canonical` any other presentation of the same tree (any sharing) gives the same
+bytes. -/
+theorem roundtrip_cell {K : Type} [BEq K] [Hashable K] [LawfulBEq K] (c : Cell) (key : Nat → Option K)
+    (idx crc cache : Bool) (hok : Order.CellOK c) (hd : Order.cellDepth c ≤ maxDepth)
+    (hk : Order.KeyInjOn (Order.cellTable c) key) :
+    ∃ (o : Order.Ordered) (bs : Bytes), Order.serializeBocModel (Order.cellTable c) key [0] idx crc cache = .ok bs ∧
+      o.roots.map (Table.unfold o.table (o.table.size + 1)) = [some c] ∧
+      (o.table.size < 16777216 → bs.length < two63 → parseBoc bs = .ok (o.table, o.roots)) := by
+  obtain ⟨o, bs, _, hser, hval, hparse⟩ :=
+    roundtrip_go_writer (Order.cellTable c) [0] key idx crc cache (Order.cellTable_valid c hok hd) hk
+  refine ⟨o, bs, hser, ?_, ?_⟩
+  · have := hval.roots_eq
+    simpa [Order.cellTable_unfold c] using this
+  · intro hn hlen
+    have hpos : 1 ≤ o.table.size := by
+      have hl := congrArg List.length hval.roots_eq
+      simp only [List.length_map, List.length_cons, List.length_nil] at hl
+      cases hr : o.roots with
+      | nil => rw [hr] at hl; simp at hl
+      | cons r rs =>
+        have := hval.valid.1.2.1 r (by rw [hr]; simp)
+        omega
+    exact hparse hn (by simp) (by simpa using hpos) hlen
 
 /-- The hypotheses of `order_valid` / `roundtrip_go_writer` are satisfiable by a table with sharing (the root refers
 twice to the same child), keyed by the row number. -/
